@@ -11,6 +11,10 @@ case kinds (all but codechar_range are also compared with the Lean model; `fn` a
   join            CONCATENATE / CONCAT / TEXTJOIN / & over item lists with blanks, nested lists, integers
   subst           SUBSTITUTE with and without an instance number
   fn              direct calls of the registered functions with arguments of every kind (model comparison only)
+A formula-level case (slice, lenconcat, case, join, subst) with key `lit` takes the literal route: its texts are written into
+the formulas as quoted literals instead of being read from variables (see setup / quoted); the records stay filed under the
+formula as written with variables, so the same oracle reads them.  LOOKALIKES = texts that look like something else (error
+codes, doubled and lone quote characters, TRUE, 1e3, =1+1) and are texts all the same.
 """
 import re
 import string
@@ -31,7 +35,18 @@ RULE = ('text: seeded strings of length 0..60 (6 % empty, 6 % one character, 4 %
         'other 40 % uniform in 0..60) drawn with one of 7 weight profiles from ASCII letters, digits, the 32 punctuation characters, spaces (40 % of them as runs of '
         '1..3), the 33 control characters (0..31, 127), 393 accented Latin letters (U+00C0..U+024F whose upper/lower/title '
         'mappings are one-to-one and agree with case folding) and 131 CJK/kana/Hangul characters (2 outside the BMP), handed to '
-        'the formulas as VARIABLES of one shared hotxlfp.Parser. Counts below: quick (thorough), each multiplied by scale. '
+        'the formulas as VARIABLES of one shared hotxlfp.Parser; 4 % of the draws of gen_str without a given profile and with a '
+        'maximal length >= 14 are instead one of the 29 LOOKALIKES (the error codes #N/A #REF! #VALUE! #DIV/0! #NAME? #NULL! #NUM! '
+        '#ERROR! #GETTING_DATA as text, #n/a, #ref!, "#N/A here", "#VALUE! here", #, doubled and lone quote characters - a""b, "", '
+        'say ""hi"", x"", it\'\'s, \'\', one ", one \', a"b, a\'b -, TRUE, FALSE, 1e3, 007, =1+1). Route lit: every case at an index '
+        'divisible by 7 of the list built so far (all kinds, in the order of generation) that is a slice, lenconcat, case, join or subst case is '
+        'given once more with key lit, + 4 fixed cases per lookalike (116: case of it as literal and as variable, lenconcat of it '
+        'and "y" as literals, slice of it with n = its length, st = 1 as variable): in a lit case every text value of the case that quoted() can '
+        'write - no backslash, and not both quote characters; delimited by " unless it contains one, then by \' - replaces its '
+        'variable name (whole words, one regular-expression pass) in every formula; numbers, blanks, lists and the texts that cannot be written stay variables '
+        '(all variables are set as well); the model request carries the formulas as written with literals; the records are filed '
+        'under the formulas as written with variables and judged by the same oracle, whose message then also lists the literal '
+        'formulas. Counts below: quick (thorough), each multiplied by scale. '
         'slice [LEFT(s,n), RIGHT(s,n), MID(s,st,n), MID(s,1,n), LEFT(s,n)&RIGHT(s,LEN(s)-n), LEN(s), LEFT(s), RIGHT(s)]: 9 fixed; '
         '80 (3000) strings with every count 0..len+5 and -1, -2, -len, -len-1, -1000, st seeded in 1..len+2; 1500 (12000) '
         'strings with up to 3 counts (seeded in 0..len+5, one of 0/1/len-1/len/len+1, a negative one down to -len-2) and st '
@@ -57,8 +72,8 @@ RULE = ('text: seeded strings of length 0..60 (6 % empty, 6 % one character, 4 %
         'Every kind but codechar_range is compared with the model, formula by formula (result/error records, exact in type; the '
         'parse trees are ignored; a model answer "no opinion" accepts anything). The oracle judges neither fn, MID(s,st,n) with '
         'st < 1, CHAR(0), subst with an empty or self-overlapping old text, TEXTJOIN over lists holding integers, nor the '
-        'auxiliary formulas LEN(s), LEFT(s), RIGHT(s), a&b, LEN(a), LEN(b), CHAR(n), xa&xb. Quick at scale 1: about 14300 cases '
-        '(slice about 6800, subst 2504, fn 1665, case 1508, join 1002, lenconcat 501, codechar 319). Non-trivial = slice: '
+        'auxiliary formulas LEN(s), LEFT(s), RIGHT(s), a&b, LEN(a), LEN(b), CHAR(n), xa&xb. Quick at scale 1: about 15800 cases, about 1770 of them by the literal route '
+        '(slice about 7400, subst about 2860, fn 1665, case about 1780, join about 1150, lenconcat about 600, codechar 319). Non-trivial = slice: '
         'len(s) >= 2; lenconcat: both sides non-empty; case: some function changes the string; codechar: n > 127; '
         'codechar_range: always (counts once per range); join: >= 2 non-blank items and a blank or a nested list; subst: '
         'non-empty old text occurring in the string; fn: at least one argument. When a proof or the correspondence broke: the '
@@ -74,6 +89,11 @@ TRUSTED = ['Python str methods (slicing, replace, join, upper/lower/title, strip
            'formula-level cases go through lexer, grammar, evaluator and set_variable of one hotxlfp.Parser shared by the whole '
            'run (variables overwritten per case); an exception inside a function reaches the oracle as the #ERROR! record of '
            'parse()',
+           'route lit: quoted() / setup() of the harness write a text as a literal delimited by a quote character it does not '
+           'contain (texts with a backslash - the lexer\'s escape, C05\'s matter - or with both quote characters are left in their '
+           'variables, so is everything that is not text) and put it in place of the variable name by one re.sub over the '
+           'formula written with variables (names as whole words, not followed by `(`; an inserted literal is not scanned again); '
+           'control characters, line feeds and non-ASCII characters are written into the literal as they are',
            'fn cases: any Python exception of a direct call counts as the error its message names, else #ERROR!, and must be the '
            'error the model raises; a returned value must match the model value exactly in type (floats within 4 ulp)']
 ASSUMPTIONS = ['"leading/trailing/inner characters" are those Python slicing s[:n], s[len-n:], s[st-1:st-1+n] designates '
@@ -102,7 +122,11 @@ ASSUMPTIONS = ['"leading/trailing/inner characters" are those Python slicing s[:
                'with instance number k >= 1 only the k-th occurrence, and nothing when there are fewer than k',
                'MID with start < 1 and SUBSTITUTE with an empty or self-overlapping old text are outside the statement: '
                'compared with the model only',
-               'lone surrogates (0xD800..0xDFFF) are Python characters but not Unicode scalar values: excluded']
+               'lone surrogates (0xD800..0xDFFF) are Python characters but not Unicode scalar values: excluded',
+               'a text is a text whatever it spells and however it arrives: one that spells an error code, a logical, a number or '
+               'a formula (LOOKALIKES) is subject to the same identities as any other, and a text written into the formula as a '
+               'quoted literal is the same text as that value held by a variable - between delimiters of one kind the other quote '
+               'character, doubled or alone, is an ordinary character']
 EXHAUSTIVE = {'quick': False, 'thorough': False}
 
 ASCII_L = string.ascii_letters
